@@ -152,3 +152,122 @@ c.variants = [(s, {"self": Computed((lambda f, cls: (lambda it, env: __import__(
 c.check("enum", _enum_check)
 c.raises("ValueError")
 c.callers_inline = True
+
+
+# ------------------------------------------------------------------------------------------------ B: end-to-end sweep of the real entry points
+MINIMAL = {  # a legal value for a member of each closed key space (used to place a name from ANOTHER space there)
+    "manifest": 1, "common": [], "condition": [], "directive": [], "parameter": 1, "text_component": "x", "cose_header": 1, "cwt": 1,
+    "version_comparison": [1], "invoke_args": 1, "dependency_metadata": [], "envelope": [],
+}
+
+
+def _names_in(obj, vocab, out):
+    if isinstance(obj, dict):
+        for k, v in obj.items():
+            if k in vocab:
+                out.append(k)
+            _names_in(v, vocab, out)
+    elif isinstance(obj, list):
+        for v in obj:
+            if isinstance(v, str) and v in vocab:
+                out.append(v)
+            _names_in(v, vocab, out)
+    elif isinstance(obj, str) and obj in vocab:
+        out.append(obj)
+
+
+def bounded(ctx):
+    import copy, importlib
+    from bounded.harness import Bounded
+    from bounded import gen_desc as G
+    from contracts import refspec_native as RN
+    from pyvc import native, front
+    import logging
+    native.install_log_shim()
+    logging.disable(logging.CRITICAL)
+    B = Bounded(ctx, rule="(1) every description of the systematic grammar set (every name of every key space at least once): create encodes it as the reference translation "
+                          "(registered integers from the pinned registry) and parse renders the SAME multiset of vocabulary names back; (2) every name placed in every OTHER "
+                          "closed key space is rejected by from_obj; distinct by description / (space, name)",
+                bound="systematic set of the grammar generator; all (closed key space, foreign name) pairs", budget_s=60)
+    from suit_generator.suit.envelope import SuitEnvelopeTagged
+    vocab = {R.name_of(c) for cs in R.SPACES.values() for c in cs}
+    used = set()
+    for name, desc in G.systematic(ctx["seed"]):
+        # nested envelopes are shown as hex by parse (their names are checked when they are parsed themselves): keep this level only
+        desc = {"SUIT_Envelope_Tagged": {k: v for k, v in desc["SUIT_Envelope_Tagged"].items() if k not in ("suit-integrated-payloads", "suit-integrated-dependencies")}}
+        B.case(name, sample={"description": name} if name.startswith("all-parameters") else None)
+        a = []
+        _names_in(desc, vocab, a)
+        used.update(a)
+        try:
+            e = SuitEnvelopeTagged.from_obj(copy.deepcopy(desc))
+            e.update_severable_digests()
+            e.update_digest()
+            b = e.to_cbor()
+        except Exception as ex:  # noqa: BLE001
+            B.fail("every-name-encodes", {"name": name, "description": desc}, f"{type(ex).__name__}: {str(ex)[:160]}")
+            continue
+        if b != RN.reference_bytes(desc):
+            B.fail("names-encode-to-their-registered-integers", {"name": name, "description": desc}, "created bytes differ from the reference translation")
+            continue
+        try:
+            back = SuitEnvelopeTagged.from_cbor(b).to_obj()
+        except Exception as ex:  # noqa: BLE001
+            B.fail("integers-render-back-as-names", {"name": name, "description": desc}, f"{type(ex).__name__}: {str(ex)[:160]}")
+            continue
+        c = []
+        _names_in(back, vocab, c)
+        if sorted(a) != sorted(c):
+            missing = sorted(set(a) - set(c)) + sorted(set(c) - set(a))
+            B.fail("integers-render-back-as-names", {"name": name, "description": desc}, f"names differ after parse: {missing[:6]}")
+    never = sorted(n for n in vocab if n not in used and n not in ("suit-delegation", "suit-integrated-payloads", "suit-integrated-dependencies", "suit-digest-bytes", "suit-digest-algorithm-id"))
+    if never:
+        raise RuntimeError(f"the systematic set does not use these names (harness gap, not a verdict): {never}")
+    # (2) foreign names are rejected in every closed key space
+    for space, (rel, cls, kind) in SPACE_CLASS.items():
+        if kind != "map" or space not in MINIMAL:
+            continue
+        klass = getattr(importlib.import_module(front.relpath_to_module(rel)), cls)
+        own = {R.name_of(c) for c in R.SPACES[space]}
+        for other, classes in R.SPACES.items():
+            for c in classes:
+                nm = R.name_of(c)
+                if nm in own:
+                    continue
+                B.case((space, nm), nontrivial=True)
+                try:
+                    klass.from_obj({nm: MINIMAL[space]})
+                except ValueError:
+                    continue
+                except Exception as ex:  # noqa: BLE001
+                    B.fail("foreign-name-rejected-with-ValueError", {"space": space, "name": nm}, f"{type(ex).__name__}: {ex}")
+                    continue
+                B.fail("foreign-name-rejected-with-ValueError", {"space": space, "name": nm}, "accepted")
+    return B.done()
+
+
+def replay_case(case):
+    import copy, importlib
+    from pyvc import native, front
+    native.install_log_shim()
+    if "space" in case:
+        rel, cls, _ = SPACE_CLASS[case["space"]]
+        klass = getattr(importlib.import_module(front.relpath_to_module(rel)), cls)
+        try:
+            klass.from_obj({case["name"]: MINIMAL[case["space"]]})
+        except ValueError:
+            return True, None
+        except Exception as ex:  # noqa: BLE001
+            return False, f"{type(ex).__name__}: {ex}"
+        return False, "accepted"
+    from suit_generator.suit.envelope import SuitEnvelopeTagged
+    from contracts import refspec_native as RN
+    try:
+        e = SuitEnvelopeTagged.from_obj(copy.deepcopy(case["description"]))
+        e.update_severable_digests()
+        e.update_digest()
+        b = e.to_cbor()
+        ok = b == RN.reference_bytes(case["description"])
+        return ok, None if ok else "created bytes differ from the reference translation"
+    except Exception as ex:  # noqa: BLE001
+        return False, f"{type(ex).__name__}: {ex}"
